@@ -150,8 +150,9 @@ def _analyze(fx, entries, assumptions=None, profile="dev", hooks=None, tag=None,
         res.cyclic.update(comp)
     topo = cg.topo(clo)          # callees first
     res.order = topo
-    # ---- pass 1: summaries
-    summaries = {}
+    # ---- pass 1: summaries (return values, may-write sets and post-states of `&mut` parameters)
+    import modsets
+    summaries = {"#mods": modsets.compute(fx, topo, res.cyclic), "#posts": {}}
     for fid in topo:
         fn = fx.fns[fid]
         body = body_of(fn)
@@ -161,11 +162,16 @@ def _analyze(fx, entries, assumptions=None, profile="dev", hooks=None, tag=None,
         it.run(collect=True)
         if it.ret_cells:
             summaries[fid] = dict(it.ret_cells)
-    res.summaries = summaries
+        if it.post_cells:
+            summaries["#posts"][fid] = dict(it.post_cells)
+    res.summaries = {k: v for k, v in summaries.items() if not k.startswith("#")}
+    res.summaries_full = summaries
     # ---- pass 2: parameters, callers first
     entries = set(entries)
     value_used = _value_used(fx, cg, clo)
     params = {}
+    entry_cells = {}
+    seen_sites = {}
     for fid in reversed(topo):
         fn = fx.fns[fid]
         body = body_of(fn)
@@ -180,10 +186,29 @@ def _analyze(fx, entries, assumptions=None, profile="dev", hooks=None, tag=None,
                 piv = {}
             else:
                 piv = {l: v for l, v in piv.items() if v is not None}
+        if not (fid in entries or fid in value_used or fid in res.cyclic or fn["kind"] == "Closure") and entry_cells.get(fid):
+            piv = dict(piv)
+            piv["#cells"] = {k: v for k, v in entry_cells[fid].items() if v is not None}
         it = Interp(fx, body, param_iv=piv, summaries=summaries, profile=profile, hooks=hooks, field_inv=field_inv)
         it.run(collect=True)
         res.interps[fid] = it
         res.params[fid] = piv
+        # integer cells below reference arguments: intersection over all call sites = the callee's entry state
+        for b, callee, cc in it.call_cells:
+            if callee not in clo:
+                continue
+            seen_sites[callee] = seen_sites.get(callee, 0) + 1
+            cur = entry_cells.get(callee)
+            if cur is None:
+                entry_cells[callee] = dict(cc)
+            else:
+                for k in list(cur):
+                    if cur[k] is None:
+                        continue
+                    if k in cc:
+                        cur[k] = (min(cur[k][0], cc[k][0]), max(cur[k][1], cc[k][1]), cur[k][2])
+                    else:
+                        cur[k] = None
         # propagate argument intervals to local callees
         for b, callee, args in it.call_args:
             if callee not in clo:
